@@ -185,6 +185,9 @@ type record struct {
 	CSR2    []rng      `json:"csr2"`
 	Probes  []probeRec `json:"probes"`
 	All     []entry    `json:"all"`
+	// AllCount: kind "full-cid": the number of entries the enumeration delivered
+	// (All then holds its first and last three)
+	AllCount int       `json:"allcount"`
 	Mapping []entry    `json:"mapping"`
 	Opt     options    `json:"opt"`
 	Origin  string     `json:"origin"`
